@@ -7,30 +7,37 @@ import SpowtdModel.Lemmas.Pest
 namespace Spowtd.Pest
 
 /-- the counts declared in the control file's header are the lengths of its sections -/
-theorem declared_counts_match (sy : Sy) (nT : Nat) (riseObs recObs : List String) :
+theorem declared_counts_match (sy : Sy) (tr : Tr) (riseObs recObs : List String) :
     (risePst sy riseObs).npar = (risePst sy riseObs).params.length ∧
     (risePst sy riseObs).nobs = riseObs.length ∧
     (risePst sy riseObs).npargp = (risePst sy riseObs).groups.length ∧
     (risePst sy riseObs).nobsgp = 1 ∧
-    (curvesPst sy nT riseObs recObs).nobs = riseObs.length + recObs.length ∧
-    (curvesPst sy nT riseObs recObs).nobsgp = 2 ∧
-    (curvesPst sy nT riseObs recObs).npar = (curvesPst sy nT riseObs recObs).params.length := by
-  refine ⟨rfl, ?_, rfl, ?_, ?_, ?_, rfl⟩
+    (curvesPst sy tr riseObs recObs).nobs = riseObs.length + recObs.length ∧
+    (curvesPst sy tr riseObs recObs).nobsgp = 2 ∧
+    (curvesPst sy tr riseObs recObs).npar = (curvesPst sy tr riseObs recObs).params.length ∧
+    (curvesPst sy tr riseObs recObs).npargp = (curvesPst sy tr riseObs recObs).groups.length := by
+  refine ⟨rfl, ?_, rfl, ?_, ?_, rfl, rfl, rfl⟩
   · simp only [Pst.nobs, risePst_obs, List.length_map, List.length_zipIdx]
   · cases sy <;> rfl
   · simp only [Pst.nobs, curvesPst_obs, List.length_append, List.length_map, List.length_zipIdx]
-  · cases sy <;> rfl
 
 /-- number of calibrated parameters: one per specific-yield knot (4 for PEATCLSM) for the rise
-    problem; knots of both functions plus the minimum transmissivity (6 for PEATCLSM) for curves -/
-theorem parameter_counts (zk : List String) (n nT : Nat) (riseObs recObs : List String) :
+    problem; for curves each section of the parameter file counts by its own type — specific yield
+    as for rise, transmissivity one per conductivity knot plus the minimum transmissivity (2 for
+    PEATCLSM) -/
+theorem parameter_counts (zk : List String) (n : Nat) (sy : Sy) (tr : Tr) (zt kk : List String) (tmin k a z : String)
+    (riseObs recObs : List String) :
     (risePst (.spline zk n) riseObs).npar = n ∧ (risePst .peatclsm riseObs).npar = 4 ∧
-    (curvesPst (.spline zk n) nT riseObs recObs).npar = n + nT + 1 ∧
-    (curvesPst .peatclsm nT riseObs recObs).npar = 6 := by
-  refine ⟨?_, rfl, ?_, rfl⟩
+    (curvesPst sy tr riseObs recObs).npar = (risePst sy riseObs).npar + (trPstCurves tr).2.length ∧
+    (trPstCurves (.spline zt kk tmin)).2.length = kk.length + 1 ∧
+    (trPstCurves (.peatclsm k a z)).2.length = 2 := by
+  refine ⟨?_, rfl, ?_, ?_, rfl⟩
   · simp only [Pst.npar, risePst, List.length_map, List.length_range]
-  · simp only [Pst.npar, curvesPst, List.length_append, List.length_map, List.length_range,
-      List.length_cons, List.length_nil]
+  · cases sy with
+    | peatclsm => simp only [Pst.npar, curvesPst, risePst, syPstCurves, List.length_append, List.length_cons, List.length_nil]
+    | spline zs m =>
+      simp only [Pst.npar, curvesPst, risePst, syPstCurves, List.length_append, List.length_map, List.length_range]
+  · simp only [trPstCurves, List.length_append, List.length_map, List.length_range, List.length_cons, List.length_nil]
 
 /-- the control file's parameter names are exactly the template's placeholders, in order, under
     PEST's case folding -/
@@ -38,24 +45,21 @@ theorem rise_param_names_eq_placeholders (sy : Sy) (tr : Tr) (riseObs : List Str
     ((riseTpl sy tr).flatMap TLine.names).map lower = ((risePst sy riseObs).params.map (·.name)).map lower := by
   rw [riseTpl_names, risePst_names]
 
-theorem curves_param_names_eq_placeholders (zs : List String) (n : Nat) (zk kk : List String) (tmin : String)
-    (riseObs recObs : List String) :
-    ((curvesTpl (.spline zs n) (.spline zk kk tmin)).flatMap TLine.names).map lower =
-      ((curvesPst (.spline zs n) kk.length riseObs recObs).params.map (·.name)).map lower ∧
-    ((curvesTpl .peatclsm (.peatclsm "a" "b" "c")).flatMap TLine.names).map lower =
-      ((curvesPst .peatclsm 0 riseObs recObs).params.map (·.name)).map lower := by
-  refine ⟨?_, rfl⟩
-  rw [curvesTpl_spline_names, curvesPst_spline_names]
-  simp only [List.map_append, map_lower_K_knot]
+/-- the same for the curves problem, for every pair of section types — also a parameter file whose two
+    sections are of different types (spline specific yield with PEATCLSM transmissivity, or the reverse) -/
+theorem curves_param_names_eq_placeholders (sy : Sy) (tr : Tr) (riseObs recObs : List String) :
+    ((curvesTpl sy tr).flatMap TLine.names).map lower =
+      ((curvesPst sy tr riseObs recObs).params.map (·.name)).map lower := by
+  rw [curvesTpl_names, curvesPst_names, List.map_append, List.map_append, trNames_lower]
 
 /-- k-th observation of the control file, k-th read instruction: same name; rise levels first
     (ascending), then recession levels (descending, as handed in) -/
-theorem obs_k_aligned (sy : Sy) (nT : Nat) (riseObs recObs : List String) :
-    ((curvesPst sy nT riseObs recObs).obs.map (·.name)) =
+theorem obs_k_aligned (sy : Sy) (tr : Tr) (riseObs recObs : List String) :
+    ((curvesPst sy tr riseObs recObs).obs.map (·.name)) =
       (curvesIns riseObs.length recObs.length).filterMap (fun i => match i with | .read n _ _ => some n | .marker _ => none) ∧
     ((risePst sy riseObs).obs.map (·.name)) =
       (riseIns riseObs.length).filterMap (fun i => match i with | .read n _ _ => some n | .marker _ => none) ∧
-    ((curvesPst sy nT riseObs recObs).obs.map (·.value)) = riseObs ++ recObs := by
+    ((curvesPst sy tr riseObs recObs).obs.map (·.value)) = riseObs ++ recObs := by
   refine ⟨?_, ?_, ?_⟩
   · refine Eq.trans ?_ (curvesIns_names _ _).symm
     rw [curvesPst_obs, List.map_append, List.map_map, List.map_map,
@@ -142,6 +146,12 @@ example : "    - @K_knot_2                @" ∈
     renderTpl (curvesTpl (.spline ["-100", "0"] 2) (.spline ["-100", "0"] ["1.0", "2.0"] "0.5")) := by decide
 example : (riseTpl (.spline ["-100", "0"] 2) (.peatclsm "1" "2" "3")).flatMap TLine.names =
     ["sy_knot_1", "sy_knot_2"] := by decide
+/-- a parameter file with sections of different types: four PEATCLSM specific-yield parameters, two
+    conductivity knots and the minimum transmissivity -/
+example : (curvesPst .peatclsm (.spline ["-100", "0"] ["1.0", "2.0"] "0.5") ["1.5"] ["0.25"]).params.map (·.name) =
+    ["sd", "theta_s", "b", "psi_s", "k_knot_1", "k_knot_2", "T_min"] := by decide
+example : headerLine (curvesPst (.spline ["-100", "0"] 2) (.peatclsm "7.3" "3" "5") ["1.5"] ["0.25"]) =
+    "    4     2     3     0     2" := by decide
 example : renderIns (riseIns 2) =
     ["pif @", "@# Rise curve simulation vector@", "l1 [e1]3:24", "l1 [e2]3:24"] := by decide
 example : headerLine (risePst (.spline ["-100", "0"] 2) ["1.5", "2.5"]) = "    2     2     1     0     1" := by
